@@ -188,4 +188,21 @@ PROPS = {
             "bytes_reassembled_and_compared": 1000000,
         },
     },
+    "C12": {
+        "level": "exploration",
+        "rule": "cases = Ipv6Extensions / Ipv4Extensions values: EXHAUSTIVE sub-domain of all 48 presence combinations (hop-by-hop, "
+                "destination options, routing [+ final destination options], fragment, auth) x next_header of every present header and "
+                "first header drawn from {0,43,44,51,60,17,59,255} = 3 831 624 configurations, plus random links, set_next_headers(n) "
+                "for all 251 non-extension n x all presence combinations, IPv4 auth chains and the IpHeaders/NetHeaders wrappers; "
+                "oracle = independent walk of the struct + independent parser of the written bytes; distinct = distinct (engine, "
+                "presence combination, walk outcome) signatures",
+        "assumptions": COMMON_ASSUME + ["the reference walk in harness/src/monitors/c12.rs states RFC 8200 order and the struct's documented layout"],
+        "coverage_extra": {"exhaustive_subdomains": {"ipv6 presence x links over S": 3831624}},
+        "runs": {"quick": [dict(CHK)], "thorough": [dict(CHK)]},
+        "mandatory": {
+            "exhaustive.configurations": 3831624, "consistent_chains": 10000, "decoded_same": 5000, "hbh_not_at_start": 1000,
+            "inconsistent_chains_rejected": 100000, "set_next_headers_ok": 40000, "ipv4.chains": 5000, "wrappers.write_ok": 10000,
+            "wrappers.net_headers_ok": 5000,
+        },
+    },
 }
